@@ -9,27 +9,33 @@
    for EVERY tail the spare-capacity decoder returns exactly what the cap = len decoder returns.
    Proofs: Proofs/Total_cap_proofs.v (a step-by-step refinement between the two definitions plus
    the totality theorems of Props/C03.v).
-   Not covered here (they stay on the cap = len modelling argument of DESIGN section 3 and on the
-   poisoned-tail runs): the location family T0x0200 / T0x0704 / T0x0801 and the extension handlers
-   (models of Location.v / LocationExt.v; for 0x66 locality is refuted: C03_refuted_ext66_local),
-   the frame decoder and the RTP decoder. *)
+   Second part (Model/Total_cap2.v, Proofs/Total_cap2_proofs.v): the same for the decoders whose
+   cap = len models belong to other properties — the location family 0x0200 / 0x0704 / 0x0801 with
+   the additional-information walk and the per-id decoders, the extension handlers 0x64 0x65 0x67
+   0x70 with their base block and alarm identification, Header.decode / JTMessage.Decode on the
+   unescaped buffer, and jt1078 Packet.Decode.
+   Not covered by a locality theorem: extension 0x66 (locality is refuted: C03_refuted_ext66_local
+   in Props/C03_location.v, the known finding); the unescape walk of jt808 (a pure function in
+   Model/Frame.v, not written against checked primitives: poisoned-tail runs only); handlers
+   embedded in T0x0200 through CustomAdditionContentFunc (oracle only, op extemb). *)
 From JT.Base Require Import Prelude.
-From JT.Model Require Import Location LocationExt Total_base Total_msgs Total_cap.
-From JT.Proofs Require Import Total_cap_proofs.
+From JT.Model Require Import Location LocationExt Frame Jt1078 Total_base Total_msgs Total_codec Total_cap Total_cap2.
+From JT.Proofs Require Import Total_cap_proofs Total_cap2_proofs.
 
-(* the generic lemma on the primitive: in range with cap = len => same bytes with any tail *)
-Theorem C03_slice_local : forall l tail i j x, slice l i j = Ok x -> slice_capT l tail i j = Ok x.
-Proof. exact slice_cap_ok. Qed.
-Print Assumptions C03_slice_local.
-
-(* the spare-capacity primitive is the real thing: it DOES see the tail when a slice expression
-   reaches beyond len (so the theorems below are not true by definition), and without a tail it is
-   the cap = len primitive *)
-Theorem C03_slice_cap_meaning :
+(* the primitives.  Generic lemma: in range with cap = len => same bytes with any tail.  The
+   spare-capacity primitives are the real thing: they DO return tail bytes when a slice expression
+   (or the cursor's `take`) reaches beyond len, so the theorems below are not true by definition;
+   without a tail they are the cap = len primitives *)
+Theorem C03_cap_primitives :
+  (forall l tail i j x, slice l i j = Ok x -> slice_capT l tail i j = Ok x) /\
   (forall l i j, slice_capT l [] i j = slice l i j) /\
-  slice [1; 2] 1 3 = Panic /\ slice_capT [1; 2] [7] 1 3 = Ok [2; 7] /\ slice_capT [1; 2] [9] 1 3 = Ok [2; 9].
-Proof. split. exact slice_cap_nil. exact slice_cap_sees_tail. Qed.
-Print Assumptions C03_slice_cap_meaning.
+  (slice [1; 2] 1 3 = Panic /\ slice_capT [1; 2] [7] 1 3 = Ok [2; 7] /\ slice_capT [1; 2] [9] 1 3 = Ok [2; 9]) /\
+  (take 3 [1; 2] = Panic /\ take_cap 3 [1; 2] [7] = Ok ([1; 2; 7], []) /\
+   take_cap 3 [1; 2] [9] = Ok ([1; 2; 9], []) /\ (forall n l, take_cap n l [] = take n l)).
+Proof.
+  split. exact slice_cap_ok. split. exact slice_cap_nil. split. exact slice_cap_sees_tail. exact take_cap_sees_tail.
+Qed.
+Print Assumptions C03_cap_primitives.
 
 (* straight-line decoders, generically: layout_ok => the tail is never read *)
 Theorem C03_fixed_layout_local : forall g fs, layout_ok g fs = true -> forall body tail,
@@ -52,3 +58,41 @@ Theorem C03_msg_local : forall id gbk ver d r body tail, ver = 1 \/ ver = 2 \/ v
   parse_msg_cap id gbk ver d r body tail = parse_msg id gbk ver d r body.
 Proof. exact parse_msg_local. Qed.
 Print Assumptions C03_msg_local.
+
+(* ---- second part: location family, extension handlers, frame and RTP decoders ---- *)
+
+(* 0x0200 / 0x0704 / 0x0801 and the additional-information walk: every item's content is a sub-slice
+   whose spare capacity is the following items and the tail; no per-id decoder reads it *)
+Theorem C03_location_local : forall body tail,
+  (forall r, t0200_cap r body tail = t0200_parse r body) /\
+  (forall r, t0704_cap r body tail = t0704_parse r body) /\
+  (forall r, t0801_cap r body tail = t0801_parse r body) /\
+  additions_cap body tail = additions_parse body.
+Proof.
+  intros. repeat split; intros.
+  apply t0200_local. apply t0704_local. apply t0801_local. apply additions_local.
+Qed.
+Print Assumptions C03_location_local.
+
+(* extension handlers 0x64 0x65 0x67 0x70 (kind 102 = 0x66 is the refuted one) for every receiver *)
+Theorem C03_ext_local : forall kind r id c tail, kind <> 102 ->
+  ext_cap kind r id c tail = ext_parse kind r id c [].
+Proof. exact ext_local. Qed.
+Print Assumptions C03_ext_local.
+
+(* jt808: the header / body slices of the unescaped buffer, whatever its spare capacity holds;
+   jt1078: Packet.Decode on any previous receiver *)
+Theorem C03_frame_rtp_local :
+  (forall d ptail, decode_chk_cap d ptail = decode_chk d) /\
+  (forall r d tail, rtp_decode_cap r d tail = rtp_decode r d).
+Proof. split. exact frame_local. exact rtp_local. Qed.
+Print Assumptions C03_frame_rtp_local.
+
+(* non-vacuity: the spare-capacity decoders accept what the cap = len decoders accept, with a
+   non-empty tail behind the slice *)
+Example C03_local_accepts :
+  is_ok (parse_msg_cap 2053 (fun x => x) 2 0 (VL []) [0; 1; 0; 0; 1; 0; 0; 0; 9] [255; 255]) = true /\
+  is_ok (t0200_cap fresh_0200 (repeat 0 28 ++ [1; 4; 0; 0; 0; 7]) [1; 4; 9; 9; 9; 9]) = true /\
+  is_ok (ext_cap 100 (fresh_ext 2) 100 (repeat 1 47) [170; 170]) = true /\
+  is_ok (rtp_decode_cap fresh_pkt (marker ++ [129; 98; 0; 1; 1; 2; 3; 4; 5; 6; 1; 48] ++ repeat 0 8 ++ [0; 1; 7]) [85]) = true.
+Proof. vm_compute. repeat split; reflexivity. Qed.
